@@ -42,7 +42,7 @@ CFG = {
     "gaps": [
         "C16_safe_f (DESIGN §8): the Safe_* side conditions (no truncated subtraction / shift / index out of range on well-formed values) are not stated per operation yet; absence of arithmetic panics is covered by the correspondence in the overflow-checking build profile only",
         "C16_panics for range()/into_range() belongs to the iterator family (iter32); from_lsb0_bytes ≠ panic inside the documented domain is C17",
-        "C16_debug_total is proved for well-formed bitmaps given that their bitset stores have a non-zero word (kernel fact popSum > 0 → ∃ non-zero word)",
+        "C16_debug_total, C16_ranges, C16_convertRange_ok/_error/_nonempty are proved without assumptions beyond well-formedness (debug) / bounds that fit u32 (conversion)",
         "64-bit type (RoaringTreemap) and iterators: not covered by this profile (treemap / iter families)",
     ],
     "level_text": "Theorems (Lean 4, kernel-checked) about the model: for every bound pair that convert_range_to_inclusive rejects, insert_range/remove_range/range_cardinality return 0, contains_range returns true and the bitmap is unchanged; the conversion fails exactly on the empty intervals (never on a non-empty one); Debug formatting is total. Absence of arithmetic panics is tied to the Rust source by running the property's argument table on generated values in two build profiles (overflow checks on: a panic is a difference; off: a wrapped value is a difference). Unbounded quantifier = theorem for the range part; the rest = sampled.",
